@@ -71,6 +71,13 @@ func (v *Vue) evaluate(ctx VueContext, nodes []*html.Node, depth int) ([]*html.N
 				continue
 			}
 
+			// A v-else-if / v-else element that no chain has claimed (its chain chose
+			// an earlier member, or the loop it follows produced instances) is not
+			// rendered - also when it carries v-for itself.
+			if (helpers.HasAttr(node, "v-else-if") || helpers.HasAttr(node, "v-else")) && !helpers.HasAttr(node, "v-if") {
+				continue
+			}
+
 			if helpers.HasAttr(node, "v-for") {
 				chainResult, skipCount, err := v.evalVFor(ctx, node, nodes[i:], depth)
 				if err != nil {
